@@ -266,6 +266,9 @@ def run_model(lines, timeout=1800, chunks=16, gen=False):
         if o is None or len(o) != len(parts[i]):
             raise RuntimeError(f"model driver returned {0 if o is None else len(o)} lines for {len(parts[i])} cases")
         res += o
+    errs = [(i, r) for i, r in enumerate(res) if r.startswith('ERR')]
+    if errs:
+        raise RuntimeError(f'model driver error on case {errs[0][0]}: {errs[0][1]} :: {lines[errs[0][0]][:200]}')
     return res
 
 
